@@ -60,7 +60,7 @@ def script_for():
     return [("obj", PIDS[0], CONTENTS[0]), ("obj", PIDS[1], CONTENTS[0]), ("obj", PIDS[2], CONTENTS[1]),
             ("obj", PIDS[4], CONTENTS[2]), ("meta", PIDS[0], None, b"<sys/>"), ("meta", PIDS[0], "c", b"<c/>"),
             ("meta", PIDS[1], "c", b"<abc/>"), ("meta", PIDS[3], FORMATS[2], b"<other/>"),
-            ("meta", PIDS[4], None, b"")]
+            ("meta", PIDS[4], None, b""), ("meta", PIDS[0], "c\n", b"<c-newline/>"), ("meta", PIDS[1], " c", b"<space-c/>")]
 
 
 DV, WV, AV = z3.Int("depth"), z3.Int("width"), z3.Int("algo")
